@@ -3,7 +3,7 @@ import Driver.State
 namespace Driver
 open Tak Codec Tak.Bot
 
-def hexVal (c : Char) : Option Nat :=
+private def hexVal (c : Char) : Option Nat :=
   if '0' ≤ c ∧ c ≤ '9' then some (c.toNat - 48)
   else if 'a' ≤ c ∧ c ≤ 'f' then some (c.toNat - 87)
   else if 'A' ≤ c ∧ c ≤ 'F' then some (c.toNat - 55)
